@@ -268,3 +268,48 @@ package vm
 //@   ensures[C03.rec_fresh] result.touched != nil && fresh(result.touched) && result.selfDestructed != nil && fresh(result.selfDestructed) && result.touched != result.selfDestructed && result.accessList != nil && fresh(result.accessList) && fresh(result.accessList.elements) && (forall a common.Address :: result.accessList.elements[a] == nil || fresh(result.accessList.elements[a])) && (stateDb.logs == nil ? result.logs == nil : fresh(base(result.logs))) && fresh(payload(result.transientStorage)) && (forall a common.Address :: (a in unbox(result.transientStorage, type(transientStorage))) ==> fresh(unbox(result.transientStorage, type(transientStorage))[a]))
 //@   ensures alOk(result.accessList) && tsOk(unbox(result.transientStorage, type(transientStorage)))
 //@   panics never
+
+// Representation invariant of *cStateDb (C03), in four parts.
+// (1) stack shape: record i has id i-1, the current context is the context of the last record, not committed
+//@ ghost macro sdbStack(d *cStateDb) bool = d != nil && len(d.snapshots) >= 1 && (forall i int :: (0 <= i && i < len(d.snapshots)) ==> d.snapshots[i].id == i - 1) && d.currentCtx == d.snapshots[len(d.snapshots) - 1].snapshotCtx && !d.committed
+// (2) layer chain: record 0 branches from the original context, record i from record i-1; writeFunc i flushes layer i into its parent
+//@ ghost macro sdbLayersDepth(d *cStateDb) bool = forall i int :: (0 <= i && i < len(d.snapshots)) ==> (lyrDepth(layer(d.snapshots[i].snapshotCtx)) == lyrDepth(layer(d.originalCtx)) + 1 + i && hdr(d.snapshots[i].snapshotCtx) == hdr(d.originalCtx))
+//@ ghost macro sdbLayersParent(d *cStateDb) bool = forall i int :: (0 <= i && i < len(d.snapshots)) ==> lyrParent(layer(d.snapshots[i].snapshotCtx)) == (i == 0 ? layer(d.originalCtx) : layer(d.snapshots[i - 1].snapshotCtx))
+//@ ghost macro sdbLayersWrite(d *cStateDb) bool = forall i int :: (0 <= i && i < len(d.snapshots)) ==> (isWriteCache(d.snapshots[i].writeFunc) && wcChild(d.snapshots[i].writeFunc) == layer(d.snapshots[i].snapshotCtx) && wcParent(d.snapshots[i].writeFunc) == (i == 0 ? layer(d.originalCtx) : layer(d.snapshots[i - 1].snapshotCtx)))
+//@ ghost macro sdbLayers(d *cStateDb) bool = sdbLayersDepth(d) && sdbLayersParent(d) && sdbLayersWrite(d)
+// (3) the live components are well-formed
+//@ ghost macro sdbLive(d *cStateDb) bool = d.touched != nil && d.selfDestructed != nil && d.touched != d.selfDestructed && alOk(d.accessList) && typeof(d.transientStorage) == type(transientStorage) && allocated(payload(d.transientStorage)) && tsOk(unbox(d.transientStorage, type(transientStorage)))
+// (4) separation: no map / backing array reachable from the live components is reachable from a snapshot record
+//     (the live ones are the only ones mutators write to; records are only read, by RevertToSnapshot)
+//@ ghost macro recSepTrackers(d *cStateDb, r RtStateDbSnapshot) bool = r.touched != d.touched && r.touched != d.selfDestructed && r.selfDestructed != d.touched && r.selfDestructed != d.selfDestructed
+//@ ghost macro recSepAl(d *cStateDb, r RtStateDbSnapshot) bool = r.accessList != nil && r.accessList != d.accessList && r.accessList.elements != d.accessList.elements && (forall a common.Address, b common.Address :: d.accessList.elements[a] != nil ==> d.accessList.elements[a] != r.accessList.elements[b])
+//@ ghost macro recSepLogs(d *cStateDb, r RtStateDbSnapshot) bool = r.logs == nil || base(r.logs) != base(d.logs)
+//@ ghost macro recSepTs(d *cStateDb, r RtStateDbSnapshot) bool = typeof(r.transientStorage) == type(transientStorage) && payload(r.transientStorage) != payload(d.transientStorage) && (forall a common.Address, b common.Address :: (a in unbox(d.transientStorage, type(transientStorage))) ==> unbox(d.transientStorage, type(transientStorage))[a] != unbox(r.transientStorage, type(transientStorage))[b])
+//@ ghost macro sdbSepTrackers(d *cStateDb) bool = forall i int :: (0 <= i && i < len(d.snapshots)) ==> recSepTrackers(d, d.snapshots[i])
+//@ ghost macro sdbSepAl(d *cStateDb) bool = forall i int :: (0 <= i && i < len(d.snapshots)) ==> recSepAl(d, d.snapshots[i])
+//@ ghost macro sdbSepLogs(d *cStateDb) bool = forall i int :: (0 <= i && i < len(d.snapshots)) ==> recSepLogs(d, d.snapshots[i])
+//@ ghost macro sdbSepTs(d *cStateDb) bool = forall i int :: (0 <= i && i < len(d.snapshots)) ==> recSepTs(d, d.snapshots[i])
+//@ ghost macro sdbSep(d *cStateDb) bool = sdbSepTrackers(d) && sdbSepAl(d) && sdbSepLogs(d) && sdbSepTs(d)
+//@ ghost macro sdbInv(d *cStateDb) bool = sdbStack(d) && sdbLayers(d) && sdbLive(d) && sdbSep(d)
+
+// Snapshot: pushes a record holding deep copies of the live components and continues in a child layer with the same view.
+//@ func (d *cStateDb) Snapshot() int
+//@   requires sdbInv(d)
+//@   modifies d.currentCtx, d.snapshots, contents(d.snapshots)
+//@   ensures[C03.snap_id] result == old(len(d.snapshots)) - 1 && len(d.snapshots) == old(len(d.snapshots)) + 1
+//@   ensures[C03.snap_older_records] forall i int :: (0 <= i && i < old(len(d.snapshots))) ==> d.snapshots[i] == old(d.snapshots[i])
+//@   ensures[C03.snap_record_touched] trackerEq(d.snapshots[result + 1].touched, d.touched) && trackerEq(d.snapshots[result + 1].selfDestructed, d.selfDestructed)
+//@   ensures[C03.snap_record_al] alEq(d.snapshots[result + 1].accessList, d.accessList)
+//@   ensures[C03.snap_record_logs] logsEq(d.snapshots[result + 1].logs, d.logs) && d.snapshots[result + 1].refund == d.refund
+//@   ensures[C03.snap_record_ts] tsEq(unbox(d.snapshots[result + 1].transientStorage, type(transientStorage)), unbox(d.transientStorage, type(transientStorage)))
+//@   ensures[C03.snap_view] viewEq(layer(d.currentCtx), old(layer(d.currentCtx))) && lyrParent(layer(d.currentCtx)) == old(layer(d.currentCtx))
+//@   ensures[C03.snap_inv_stack] sdbStack(d)
+//@   ensures[C03.snap_inv_layers_depth] sdbLayersDepth(d)
+//@   ensures[C03.snap_inv_layers_parent] sdbLayersParent(d)
+//@   ensures[C03.snap_inv_layers_write] sdbLayersWrite(d)
+//@   ensures[C03.snap_inv_live] sdbLive(d)
+//@   ensures[C03.snap_inv_sep_trackers] sdbSepTrackers(d)
+//@   ensures[C03.snap_inv_sep_al] sdbSepAl(d)
+//@   ensures[C03.snap_inv_sep_logs] sdbSepLogs(d)
+//@   ensures[C03.snap_inv_sep_ts] sdbSepTs(d)
+//@   panics never
